@@ -11,8 +11,8 @@ use crate::core::session::{guard, Session};
 use crate::core::util::panic_class;
 
 /// One "hard feature" per case keeps signatures attributable.
-const FEATURES: [&str; 14] = [
-    "plain", "negative-int", "extreme-int", "special-float", "negative-zero", "string-quote", "string-backslash", "string-semicolon", "string-newline", "string-dashdash-line", "unicode", "temporal", "boolean-null-mix", "empty-table",
+const FEATURES: [&str; 15] = [
+    "plain", "negative-int", "extreme-int", "special-float", "negative-zero", "string-quote", "string-backslash", "string-semicolon", "string-newline", "string-dashdash-line", "unicode", "temporal", "boolean-null-mix", "empty-table", "large-repetitive-table",
 ];
 
 fn bits(v: &SqlValue) -> String {
@@ -85,6 +85,13 @@ fn build(rng: &mut Rng, feature: &str) -> (Session, Vec<String>) {
     for id in 1..=n {
         let row = gen_row(rng, id, feature);
         s.db.insert_row("T", Row::new(row)).expect("direct insert");
+    }
+    if feature == "large-repetitive-table" {
+        // thousands of rows over a handful of distinct values: compresses several hundred times
+        let m = rng.range(1500, 5000);
+        for k in 0..m {
+            s.db.insert_row("OTHER", Row::new(vec![SqlValue::Integer(k % 3), SqlValue::Varchar(["n", "m"][(k % 2) as usize].to_string())])).expect("direct insert");
+        }
     }
     let mut ddl = Vec::new();
     for ix in ["CREATE INDEX ix_i ON t (i)", "CREATE UNIQUE INDEX ux_b ON t (b)", "CREATE INDEX ix_s ON t (s(3))", "CREATE INDEX ix_id ON t (i DESC, d)"] {
@@ -179,7 +186,8 @@ pub fn run_c18(ctx: &mut Ctx) {
                         if a.0 != b.0 {
                             bad = Some(("column-metadata-differs", json!({"table": t, "saved": a.0, "loaded": b.0})));
                         } else if a.1 != b.1 {
-                            bad = Some(("rows-differ", json!({"table": t, "saved": a.1, "loaded": b.1})));
+                            let cap = |v: &Vec<String>| v.iter().take(30).cloned().collect::<Vec<_>>();
+                            bad = Some(("rows-differ", json!({"table": t, "saved_rows": a.1.len(), "loaded_rows": b.1.len(), "saved": cap(&a.1), "loaded": cap(&b.1)})));
                         }
                     }
                     (Some(_), None) => bad = Some(("table-missing-after-load", json!({"table": t}))),
